@@ -193,7 +193,11 @@ fn caught<R>(sh: &Shared, what: &str, f: impl FnOnce() -> R) -> Option<R> {
     }
 }
 
-fn begin(sh: &Shared, chain: &[Overlay]) -> Option<Session<Blake3Hasher>> {
+fn begin(sh: &Shared, chain: &[Overlay], base: Option<[u8; 32]>) -> Option<Session<Blake3Hasher>> {
+    if let Some(b) = base {
+        // the state the chain was built on (previous root of its oldest member: no member is committed while the chain is built)
+        hev("h.ovbase", format!("base={}", short(&b)));
+    }
     let params = if chain.is_empty() {
         SessionParams::default()
     } else {
@@ -229,7 +233,7 @@ fn read(sh: &Shared, s: &Session<Blake3Hasher>) {
 }
 
 /// finish the session with a fresh stamp; registers the new root
-fn finish(sh: &Shared, s: Session<Blake3Hasher>, rng: &mut Rng, on_overlay: bool) -> Option<FinishedSession> {
+fn finish(sh: &Shared, s: Session<Blake3Hasher>, rng: &mut Rng, on_overlay: bool, superseded: Option<bool>) -> Option<FinishedSession> {
     let id = sh.next_stamp.fetch_add(1, Ordering::SeqCst);
     let mut val = id.to_le_bytes().to_vec();
     if rng.chance(1, 6) {
@@ -242,29 +246,37 @@ fn finish(sh: &Shared, s: Session<Blake3Hasher>, rng: &mut Rng, on_overlay: bool
         actuals.push((k, KeyReadWrite::Write(Some(vec![id as u8; 20]))));
     }
     actuals.sort_by(|a, b| a.0.cmp(&b.0));
+    hev("h.finish", format!("sid={}", s.verif_sid()));
     let r = match std::panic::catch_unwind(std::panic::AssertUnwindSafe(|| s.finish(actuals))) {
         Ok(r) => r,
         Err(_) => {
             // the guard was dropped while unwinding
-            hev("h.end_done", String::new());
-            if on_overlay {
-                // OBSERVATION, not a property violation: a session on an overlay chain whose base was superseded by a competing
-                // commit / rollback panics in the merkle worker (`seek.rs`: "leaf must exist") instead of failing
-                sh.observations.lock().unwrap().push("stale_overlay_session_finish_panic".into());
-            } else {
-                sh.problems.lock().unwrap().push("C15 panic in Session::finish".into());
-            }
+            hev("h.end_done", "panic".into());
+            sh.problems.lock().unwrap().push(format!("C15 C11 panic in Session::finish (session on an overlay chain: {on_overlay})"));
             return None;
         }
     };
-    hev("h.end_done", String::new());
     match r {
         Ok(f) => {
+            hev("h.end_done", "ok".into());
+            if superseded == Some(true) {
+                sh.problems.lock().unwrap().push("C11 F23 a session on an overlay chain whose base is not the committed root (Nomt::root asked under the session's own read guard) was finished: Session::finish must refuse it".into());
+            }
             sh.roots.lock().unwrap().insert(id, short(&f.root().into_inner()));
             Some(f)
         }
         Err(e) => {
-            sh.problems.lock().unwrap().push(format!("C15 finish error {e:#}"));
+            let msg = format!("{e:#}");
+            if msg.contains("not based on the committed state") {
+                hev("h.end_done", "err-superseded".into());
+                sh.observations.lock().unwrap().push("superseded_chain_finish_refused".into());
+                if superseded != Some(true) {
+                    sh.problems.lock().unwrap().push("C11 C15 Session::finish refused a session as superseded although its chain's base was the committed root under the session's read guard".into());
+                }
+            } else {
+                hev("h.end_done", "err-other".into());
+                sh.problems.lock().unwrap().push(format!("C15 finish error {msg}"));
+            }
             None
         }
     }
@@ -310,14 +322,14 @@ fn register_overlay(sh: &Shared, ov: &Overlay) {
 fn run_task(sh: &Shared, task: &Task, rng: &mut Rng) {
     match task {
         Task::SessionCommit { reads, blocking, retries, linger } => {
-            let Some(s) = begin(sh, &[]) else { return };
+            let Some(s) = begin(sh, &[], None) else { return };
             for _ in 0..*reads {
                 read(sh, &s);
             }
             if *linger {
                 std::thread::sleep(Duration::from_micros(rng.range(50, 400) as u64));
             }
-            let Some(f) = finish(sh, s, rng, false) else { return };
+            let Some(f) = finish(sh, s, rng, false, None) else { return };
             if *blocking {
                 commit_fin(sh, f);
             } else {
@@ -334,7 +346,7 @@ fn run_task(sh: &Shared, task: &Task, rng: &mut Rng) {
             }
         }
         Task::SessionDrop { reads } => {
-            let Some(s) = begin(sh, &[]) else { return };
+            let Some(s) = begin(sh, &[], None) else { return };
             for _ in 0..*reads {
                 read(sh, &s);
             }
@@ -345,28 +357,23 @@ fn run_task(sh: &Shared, task: &Task, rng: &mut Rng) {
             let mut chain: Vec<Overlay> = vec![];
             let mut base: Option<[u8; 32]> = None;
             for _ in 0..*len {
-                let Some(s) = begin(sh, &chain) else { return };
+                let Some(s) = begin(sh, &chain, base) else { return };
+                let mut superseded: Option<bool> = None;
                 match base {
                     None => base = Some(s.prev_root().into_inner()),
                     Some(b) => {
-                        // A session on a chain of overlays is only meaningful while the chain's base is the committed state. The
-                        // session holds the read guard, so the answer of `Nomt::root` cannot change until it ends.  (A session on a
-                        // chain whose base was superseded is NOT refused by the store; after a rollback to the old base the whole
-                        // chain is accepted and publishes a root that is not the root of the stored content: `vharness lockrec-aba`,
-                        // notes/Q22.md.  The recorded schedules stay clear of it.)
+                        // The session holds the read guard, so the answer of `Nomt::root` cannot change until it ends: this is the
+                        // harness's own (model-independent) knowledge of whether the chain still stands on the committed state.
+                        // Since the repair of F23 `Session::finish` must refuse exactly the superseded ones.
                         hev("h.call.root", String::new());
                         let cur = caught(sh, "Nomt::root", || sh.db.root());
                         if let Some(r) = &cur {
                             hev("h.ret", format!("done root={}", short(&r.into_inner())));
                         }
-                        if cur.map(|r| r.into_inner()) != Some(b) {
-                            sh.observations.lock().unwrap().push("overlay_chain_base_superseded_session_abandoned".into());
-                            drop_session(sh, s);
-                            break;
-                        }
+                        superseded = cur.map(|r| r.into_inner() != b);
                     }
                 }
-                let Some(f) = finish(sh, s, rng, !chain.is_empty()) else { return };
+                let Some(f) = finish(sh, s, rng, !chain.is_empty(), superseded) else { break };
                 let ov = f.into_overlay();
                 register_overlay(sh, &ov);
                 chain.push(ov);
@@ -404,9 +411,9 @@ fn run_task(sh: &Shared, task: &Task, rng: &mut Rng) {
             }
         }
         Task::TryWhileSession => {
-            let Some(s) = begin(sh, &[]) else { return };
-            let Some(f) = finish(sh, s, rng, false) else { return };
-            let Some(s2) = begin(sh, &[]) else { return };
+            let Some(s) = begin(sh, &[], None) else { return };
+            let Some(f) = finish(sh, s, rng, false, None) else { return };
+            let Some(s2) = begin(sh, &[], None) else { return };
             // the caller discipline of T15.7 allows a session owner the NON-blocking commit: it is handed back
             let back = try_commit_fin(sh, f);
             read(sh, &s2);
@@ -477,6 +484,8 @@ enum Kind {
     Begin,
     /// on a chain of overlays: the committed root is read under `shared` to compare it with the chain's base (F23 repair)
     BeginOv,
+    /// `Session::finish`
+    Fin,
     End,
     SRead,
     NRead,
@@ -524,6 +533,8 @@ struct Render<'a> {
     ctx: HashMap<usize, Ctx>,
     pending: HashMap<usize, PendingRel>,
     waiting: HashMap<usize, Waiting>,
+    /// the chain base announced by the harness for the thread's next `begin_session` on overlays
+    ovbase: HashMap<usize, String>,
     /// threads inside a `try_write` that will fail and has not been placed yet
     busy_try: Vec<usize>,
     readers: Vec<(usize, usize)>,
@@ -690,14 +701,26 @@ impl<'a> Render<'a> {
                 }
             };
             match name {
+                "h.ovbase" => {
+                    self.ovbase.insert(t, field(&e.detail, "base").unwrap_or("?").to_string());
+                }
+                "h.finish" => {
+                    let sid = self.sid(field(&e.detail, "sid").unwrap_or("?"));
+                    self.call(t, format!("finish {sid}"), Kind::Fin, sid);
+                    self.at(t, "fin_chk", "ok ran");
+                }
                 "call.begin_session" => {
                     if field(&e.detail, "guard") == Some("0") {
                         // the session `Nomt::rollback` opens under its write guard
                     } else {
                         let sid = self.sid(field(&e.detail, "sid").unwrap_or("?"));
                         let ov = field(&e.detail, "overlay") == Some("1");
-                        let kw = if ov { "beginov" } else { "begin" };
-                        self.call(t, format!("{kw} {sid}"), if ov { Kind::BeginOv } else { Kind::Begin }, sid);
+                        if ov {
+                            let base = self.ovbase.remove(&t).unwrap_or_else(|| "?".into());
+                            self.call(t, format!("beginov {sid} {base}"), Kind::BeginOv, sid);
+                        } else {
+                            self.call(t, format!("begin {sid}"), Kind::Begin, sid);
+                        }
                     }
                 }
                 "A.read.wait" => {
@@ -726,6 +749,7 @@ impl<'a> Render<'a> {
                             let v = self.ret_field(i, e.tid, "root");
                             self.atv(t, "read_root", &v);
                         }
+                        Some(Kind::BeginOv) => self.at(t, "sess_base", "ok ran"),
                         _ => self.at(t, "read_root", "ok ran"),
                     }
                     self.at(t, "M.unlock", "ok ran");
@@ -745,7 +769,7 @@ impl<'a> Render<'a> {
                     self.atv(t, "sess_read", &v);
                 }
                 "A.read_unlock.pre" => {
-                    if self.ctx.get(&t).map(|c| c.kind) == Some(Kind::NRead) {
+                    if matches!(self.ctx.get(&t).map(|c| c.kind), Some(Kind::NRead) | Some(Kind::Fin)) {
                         let sid = self.ctx[&t].sid;
                         self.pending.insert(t, PendingRel::Read(sid));
                     } else {
@@ -757,9 +781,18 @@ impl<'a> Render<'a> {
                 "A.read_unlock.post" | "A.write_unlock.post" => self.flush(t),
                 "h.end_done" => {
                     // (a session without a guard — none is created by the scenarios — would have no `end` call)
-                    if self.ctx.get(&t).map(|c| c.kind) == Some(Kind::End) {
-                        self.at(t, "ret", "ok finished done");
-                        self.ctx.remove(&t);
+                    match self.ctx.get(&t).map(|c| c.kind) {
+                        Some(Kind::End) => {
+                            self.at(t, "ret", "ok finished done");
+                            self.ctx.remove(&t);
+                        }
+                        Some(Kind::Fin) => {
+                            let res = if e.detail.is_empty() { "ok".to_string() } else { e.detail.clone() };
+                            self.bump(&format!("finish_{}", res.replace('-', "_")));
+                            self.at(t, "ret", &format!("ok finished {res}"));
+                            self.ctx.remove(&t);
+                        }
+                        _ => {}
                     }
                 }
                 "h.ret" => {
@@ -1107,6 +1140,7 @@ pub fn run(seed: u64, cases: usize, out: &mut Sink, args: &[String]) {
             ctx: HashMap::new(),
             pending: HashMap::new(),
             waiting: HashMap::new(),
+            ovbase: HashMap::new(),
             busy_try: vec![],
             readers: vec![],
             wbit: None,
